@@ -1884,6 +1884,8 @@ impl SctpInner {
                 self.next_tsn.load(Ordering::SeqCst).wrapping_sub(1),
                 Ordering::SeqCst,
             );
+            // Anything submitted while the handshake was running goes out now.
+            self.timer_notify.notify_one();
         }
 
         let channels_to_process = {
@@ -2346,6 +2348,8 @@ impl SctpInner {
                 self.next_tsn.load(Ordering::SeqCst).wrapping_sub(1),
                 Ordering::SeqCst,
             );
+            // Anything submitted while the handshake was running goes out now.
+            self.timer_notify.notify_one();
         }
 
         let channels_to_process = {
@@ -3603,6 +3607,12 @@ impl SctpInner {
         // 3. Send New Data - batch drain outbound queue under one lock
         let mut new_data_sent = false;
         {
+            // New DATA needs the handshake to have got somewhere: the peer's
+            // verification tag (never 0) and our initial TSN are fixed by INIT /
+            // INIT-ACK. A message submitted earlier (a channel created between DTLS
+            // start and the SCTP handshake) stays queued until then instead of
+            // leaving with tag 0 and a TSN the handshake will overwrite.
+            let peer_known = self.remote_verification_tag.load(Ordering::SeqCst) != 0;
             let available =
                 effective_window.saturating_sub(self.flight_size.load(Ordering::Relaxed));
             let mut budget = available;
@@ -3611,7 +3621,7 @@ impl SctpInner {
             let window_limited;
             {
                 let mut outbound = self.outbound_queue.lock();
-                while budget > 0 && batch.len() < 1000 {
+                while peer_known && budget > 0 && batch.len() < 1000 {
                     if let Some(chunk_info) = outbound.pop_front() {
                         let chunk_wire_size = CHUNK_HEADER_SIZE + 12 + chunk_info.payload.len();
                         let padded = chunk_wire_size + (4 - (chunk_wire_size % 4)) % 4;
